@@ -564,28 +564,35 @@ are components 0 and 1 of its entry generator -/
 def G.component (g : G) (i : Nat) : G :=
   .map g (fun | .val (.tup vs) => (match vs[i]? with | some v => .val v | none => .err) | .viol => .viol | _ => .err)
 
+/-- the enumeration index `x -> x * step + start` of `count(start, step)` (`include.rs:103`) -/
+def affIdx (start step : Int) : F := fun | .val (.int i) => .val (.int (i * step + start)) | .viol => .viol | _ => .err
+
 /-- `enumerate(g, start, step)` (`include.rs:202`): `count(start, step).zip(g)`; `count(start, step)` is the counter
 under the sequence map `x -> x * step + start` (`include.rs:103`) -/
 def G.enumerate (g : G) (start step : Int) : G :=
-  .zip [.fromCount (some (fun | .val (.int i) => .val (.int (i * step + start)) | .viol => .viol | _ => .err)), g]
+  .zip [.fromCount (some (affIdx start step)), g]
 
 /-- `repeat(g, n)` (`include.rs:1339`): `[g].to_generator().repeat().take(n).flatten()` — the fold of `add` over
 `n` copies of the generator value -/
 def G.repeatN (g : G) (n : Nat) : G := G.flattenAll (List.replicate n g)
 
+/-- the callback of `aggregate(g, f)` without an initial state (`include.rs:152`):
+`(prev, next) -> if(prev.has_value(), some(f(prev.value(), next)), some(next))`; `none()` is `tup []`, `some(v)` is `tup [v]` -/
+def agg1Step (f : F2) : F2 := fun prev next =>
+  match prev, next with
+  | .viol, _ => .viol
+  | _, .viol => .viol
+  | .val (.tup []), .val v => .val (.tup [v])
+  | .val (.tup [a]), .val v => (match f (.val a) (.val v) with | .val r => .val (.tup [r]) | r => r)
+  | _, _ => .err
+
+/-- `value{Optional<T>}` on the encoding -/
+def optValue : F := fun | .val (.tup [v]) => .val v | .viol => .viol | _ => .err
+
 /-- `aggregate(g, f)` without an initial state (`include.rs:151`):
-`g.aggregate(none(), (prev, next) -> if(prev.has_value(), some(f(prev.value(), next)), some(next))).skip(1).map(value)`;
-`none()` is `tup []`, `some(v)` is `tup [v]` -/
+`g.aggregate(none(), agg1Step f).skip(1).map(value)` -/
 def G.aggregate1 (g : G) (f : F2) : G :=
-  .map (G.mkSlice (.aggregate g (.val (.tup []))
-      (fun prev next =>
-        match prev, next with
-        | .viol, _ => .viol
-        | _, .viol => .viol
-        | .val (.tup []), .val v => .val (.tup [v])
-        | .val (.tup [a]), .val v => (match f (.val a) (.val v) with | .val r => .val (.tup [r]) | r => r)
-        | _, _ => .err)) 1 none)
-    (fun | .val (.tup [v]) => .val v | .viol => .viol | _ => .err)
+  .map (G.mkSlice (.aggregate g (.val (.tup [])) (agg1Step f)) 1 none) optValue
 
 /-- `reduce(g, f)` without an initial state (`include.rs:214`): `g.aggregate(f).last()` -/
 def reduce1 (L : Option Nat) (fuel : Nat) (g : G) (f : F2) : Res V := last L fuel (g.aggregate1 f)
